@@ -189,7 +189,9 @@ func (am AppModule) EndBlock(ctx sdk.Context, _ abci.RequestEndBlock) []abci.Val
 	// TODO: for v1 use mode==1, just check the failed feeders
 	_, failed, sealed := agc.SealRound(ctx, forceSeal)
 	for _, feederID := range sealed {
-		am.keeper.RemoveNonceWithFeederIDForValidators(ctx, feederID, agc.GetValidators())
+		// remove the nonce rows of a sealed round for every validator that has one, not only for the members of the
+		// (possibly just updated) validator set: a validator removed by this block's update must not keep its row
+		am.keeper.RemoveNonceWithFeederIDForAll(ctx, feederID)
 	}
 	// append new round with previous price for fail-seal token
 	for _, tokenID := range failed {
